@@ -36,7 +36,7 @@ def build_views(ch):
     extras = ch.pick('extra_tags', ['typical', 'none', 'machine', 'solaris', 'unknown', 'duplicates', 'negative_like'])
     after = ch.pick('after_terminator', [0, 2])
     strplace = ch.pick('string_offsets', ['middle', 'start', 'last'])
-    layout = ch.pick('pt_load_layout', ['one', 'two_bias', 'two_bias_ptrs_in_second', 'three_with_gap'])
+    layout = ch.pick('pt_load_layout', ['one', 'two_bias', 'two_bias_ptrs_in_second', 'three_with_gap', 'adjacent_in_memory'])
     hash_kind = ch.pick('hash', ['gnu', 'sysv', 'both', 'neither'])
     nsym = ch.pick('symbol_count', [4, 1, 40])
     relkind = ch.pick('reloc_tables', ['rela+jmprel', 'rel+jmprel_rel', 'relr', 'none', 'all'])
@@ -81,7 +81,10 @@ def build_views(ch):
         secs['hash'] = img.add(eg.Sec('.hash', 5, data=hashes.build_sysv(names, 3, le), flags=2, link=3, entsize=4, align=8)) if hash_kind in ('sysv', 'both') else None
         secs['gnu'] = img.add(eg.Sec('.gnu.hash', 0x6ffffff6, data=hashes.build_gnu(names, symoff, gnu_nb, 2, 6, cls, le), flags=2, align=8)) if hash_kind in ('gnu', 'both') else None
         secs['dynsym'] = img.add(eg.Sec('.dynsym', 11, data=symbytes, flags=2, info=1, entsize=f.symsize, align=8))
-        secs['dynstr'] = img.add(eg.Sec('.dynstr', 3, data=st.bytes(), flags=2))
+        if layout == 'adjacent_in_memory':
+            # 0x40 unmapped file bytes before the string table: the first PT_LOAD ends in memory exactly where the second begins, with a different bias
+            img.add(eg.Sec('.unmapped', 1, data=b'U' * 0x40, flags=0, file_align=1))
+        secs['dynstr'] = img.add(eg.Sec('.dynstr', 3, data=st.bytes(), flags=2, file_align=1 if layout == 'adjacent_in_memory' else None))
         secs['dynsym'].link = secs['dynstr'].index
         for k in ('hash', 'gnu'):
             if secs[k] is not None:
@@ -163,7 +166,7 @@ def build_views(ch):
         img.add_shstrtab()
         if view == 'stripped':
             img.strip_shdrs = True
-        nloads = {'one': 1, 'two_bias': 2, 'two_bias_ptrs_in_second': 2, 'three_with_gap': 3}[layout]
+        nloads = {'one': 1, 'two_bias': 2, 'two_bias_ptrs_in_second': 2, 'three_with_gap': 3, 'adjacent_in_memory': 2}[layout]
         segs = [img.seg(eg.Seg(1, 5, align=0x1000)) for _ in range(nloads)] + [img.seg(eg.Seg(2, 6, align=8))]
         total = img.layout()
         # ---- address map
@@ -173,11 +176,14 @@ def build_views(ch):
             loads = [(0, total, 0x400000)]
         else:
             # second PT_LOAD starts at a chosen section
-            pivot = secs['dynstr'] if layout == 'two_bias_ptrs_in_second' else secs['dynamic']
+            pivot = secs['dynstr'] if layout in ('two_bias_ptrs_in_second', 'adjacent_in_memory') else secs['dynamic']
             if layout == 'three_with_gap':
                 pivot = secs['dynstr']
             cut = pivot.offset
             loads = [(0, cut, 0x400000), (cut, total - cut, 0x600000 + (cut & 0xfff))]
+            if layout == 'adjacent_in_memory':
+                va2 = 0x600000 + (cut & 0xfff)
+                loads = [(0, cut - 0x40, va2 - (cut - 0x40)), (cut, total - cut, va2)]
             if layout == 'three_with_gap':
                 cut2 = secs['dynamic'].offset
                 loads = [(0, cut, 0x400000), (cut, cut2 - cut - 0x20, 0x600000 + (cut & 0xfff)), (cut2, total - cut2, 0x900000)]
